@@ -44,8 +44,14 @@ func (_ dimensionSetter) UpdateProperties(po tabular.PropertyOwner) error {
 		height:    cell.Height(),
 	}
 
-	linesWidths := make([]decoration.WidthString, dims.height)
-	for i, l := range cell.Lines() {
+	// an object may declare a Height smaller than the number of lines in its text
+	lines := cell.Lines()
+	lineCount := len(lines)
+	if dims.height > lineCount {
+		lineCount = dims.height
+	}
+	linesWidths := make([]decoration.WidthString, lineCount)
+	for i, l := range lines {
 		linesWidths[i] = decoration.WidthString{
 			S: l,
 			W: length.StringCells(l),
